@@ -39,6 +39,9 @@ MUTANTS2 = {
  'S16_last_dim_skipped': ('src/File.cpp', "            for (auto &dim : dims) {\n                if (dim.dimensionType() == DimensionType::Range) {", "            for (auto &dim : dims) {\n                if (dim.index() == dims.size() && dims.size() > 2) continue;\n                if (dim.dimensionType() == DimensionType::Range) {"),
  'S17_second_block_mtags': ('src/File.cpp', "        auto multi_tags = block.multiTags();", "        auto multi_tags = blcks[0].multiTags();"),
  'S18_interval_nan_ok': ('include/nix/valid/checks.hpp', "            return static_cast<double>(val) > value;", "            return !(static_cast<double>(val) <= value);"),
+ 'H1_range_unit_ignored': ('src/util/dataAccess.cpp', "unit = rd.unit().value_or(\"none\");", "unit = \"none\";"),
+ 'H2_helper_drops_last_dim': ('src/valid/helper.cpp', "    return units;", "    if (units.size() > 1) units.pop_back();\n    return units;"),
+ 'H3_frame_unit_ignored': ('src/util/dataAccess.cpp', "        if (df_dim.columnIndex()) {\n            unit = df_dim.unit();\n        }", ""),
  'S19_prop_unit_should': ('src/valid/validate.cpp', "must(property, &Property::unit, isValidUnit(), \"Unit is not SI or composite of SI units.\")", "should(property, &Property::unit, isValidUnit(), \"Unit is not SI or composite of SI units.\")"),
 }
 
